@@ -1028,6 +1028,7 @@ fn run(ctx: &Ctx, report: &mut Report) {
     // real nodes: in every node's own record the sessions with one peer never overlap, and after
     // all traffic has ended a node that is asked for a session gets one (or at least a failure)
     super::live::run_live_family(ctx, report, "C11");
+    super::live::run_decline_family(ctx, report, "C11");
     // (dials, leaves): the second search adds "a node leaves the document" with one dial less
     // the third search repeats the first with a content download of the document queued at both
     // nodes (the only other thing the completion handlers read besides the coordination state)
@@ -1086,6 +1087,9 @@ fn run(ctx: &Ctx, report: &mut Report) {
 
 fn replay(case: &Value) -> anyhow::Result<(bool, String)> {
     if let Some(r) = super::live::replay_live(case, "C11")? {
+        return Ok(r);
+    }
+    if let Some(r) = super::live::replay_decline(case, "C11")? {
         return Ok(r);
     }
     let hist: Vec<Ev> = serde_json::from_value(case["hist"].clone())?;
